@@ -74,7 +74,8 @@ def drive(sc):
 
 
 def model_runs(tier):
-    return [{"module": "MC_C13", "constants": {"VMax": 3 if tier == "quick" else 5}}]
+    return [{"module": "MC_C13", "constants": {"VMax": 3 if tier == "quick" else 5}},
+            {"tlaps": "proofs/KernelProofs.tla"}]      # violation = distance, positive iff outside: for all integers
 
 
 CHECK = PropertyCheck(
